@@ -303,6 +303,31 @@ MUTANTS = [
  ('C12-7', 'C12', K + 'FileHandlers/Parser/ParseMCNPCell.py',
   "                if cell.importance == 0:\n                    skipped_cells.append(key)",
   "                if cell.importance == 0 and rank > 0:\n                    skipped_cells.append(key)"),
+ # ---- C13
+ ('C13-3', 'C13', K + 'Volume/CellConversion.py',
+  "                if inline_filled:\n                    new_cell.geometry = ('*', cell.geometry,\n                                         CellRef(new_elt_key))",
+  "                if inline_filled:\n                    new_cell.geometry = ('*', CellRef(new_elt_key),\n                                         CellRef(new_elt_key))"),
+ ('C13-6', 'C13', K + 'Volume/CellConversion.py',
+  "                if inline_filled:\n                    new_cell.geometry = ('*', cell.geometry, tree)",
+  "                if inline_filled:\n                    new_cell.geometry = ('*', tree, tree)"),
+ ('C13-7', 'C13', K + 'Surface/Duplicates.py',
+  "            if surf in surf_to_id:\n                renumbering[key] = surf_to_id[surf]",
+  "            if surf in surf_to_id or (key % 5 == 0 and surf.type_surface in [s.type_surface for s in surf_to_id]):\n                renumbering[key] = surf_to_id.get(surf, min(surf_to_id.values()))"),
+ ('C13-4', 'C13', K + 'Volume/CellInlining.py',
+  "                sub_geometry = dic[arg.cell].geometry\n                new_geometry.append(inline_cells_worker(sub_geometry, dic,\n                                                        to_inline))",
+  "                sub_geometry = dic[arg.cell].geometry\n                if not isLeaf(sub_geometry):\n                    sub_geometry = sub_geometry[1]\n                new_geometry.append(inline_cells_worker(sub_geometry, dic,\n                                                        to_inline))"),
+ # (mutants that only change __hash__ collisions or only __eq__ while the
+ #  hash still separates the surfaces are equivalent for dict-based dedup)
+ ('C13-1', 'C13', K + 'Surface/Duplicates.py',
+  ("            if surf in surf_to_id:\n                renumbering[key] = surf_to_id[surf]",
+   "                surf_to_id[surf] = key"),
+  ("            skey = (surf.type_surface, surf.param_surface)\n            if skey in surf_to_id:\n                renumbering[key] = surf_to_id[skey]",
+   "                surf_to_id[skey] = key")),
+ ('C13-2', 'C13', K + 'Surface/Duplicates.py',
+  ("            if surf in surf_to_id:\n                renumbering[key] = surf_to_id[surf]",
+   "                surf_to_id[surf] = key"),
+  ("            skey = (surf.type_surface, tuple(round(p, 6) for p in surf.param_surface), None if surf.transform is None else tuple(surf.transform[1].flat))\n            if skey in surf_to_id:\n                renumbering[key] = surf_to_id[skey]",
+   "                surf_to_id[skey] = key")),
 ]
 
 
@@ -319,10 +344,14 @@ def run_one(mut, tier, write_patches=False):
         copy_tree(tmp)
         path = os.path.join(tmp, relfile)
         src = open(path).read()
-        if src.count(old) != 1:
-            return name, pid, 'BROKEN-MUTANT (pattern found %d times)' \
-                % src.count(old), 0.0, ''
-        open(path, 'w').write(src.replace(old, new))
+        olds = old if isinstance(old, (list, tuple)) else [old]
+        news = new if isinstance(new, (list, tuple)) else [new]
+        for o_, n_ in zip(olds, news):
+            if src.count(o_) != 1:
+                return name, pid, 'BROKEN-MUTANT (pattern found %d times)' \
+                    % src.count(o_), 0.0, ''
+            src = src.replace(o_, n_)
+        open(path, 'w').write(src)
         if write_patches:
             diff = subprocess.run(['diff', '-u', os.path.join(REPO, relfile),
                                    path], capture_output=True, text=True).stdout
